@@ -46,6 +46,12 @@ type boundBlock struct {
 	scope *state
 }
 
+// a bound block is passed to the mixin as its $block argument: it has to survive convert() unchanged
+func (b *boundBlock) Member(string) Object { return Nil{} }
+func (b *boundBlock) String() string       { return b.name }
+func (b *boundBlock) iface() interface{}   { return b }
+func (b *boundBlock) copy() Object         { return b }
+
 // variable holds the dynamic value of a variable such as $, $x etc.
 type variable struct {
 	name  string
@@ -462,8 +468,17 @@ func (s *state) walkTry(dot reflect.Value, r *parse.TryNode) {
 func (s *state) walkTemplate(dot reflect.Value, t *parse.TemplateNode) {
 	s.at(t)
 	name := t.Name
+	var bound *boundBlock
 	if name[0] == '$' {
-		name = fmt.Sprintf("%s", s.varValue(name))
+		v := s.varValue(name)
+		if v.IsValid() && v.CanInterface() {
+			bound, _ = v.Interface().(*boundBlock)
+		}
+		if bound != nil {
+			name = bound.name
+		} else {
+			name = fmt.Sprintf("%s", v)
+		}
 	}
 	tmpl := s.tmpl.tmpl[name]
 	if tmpl == nil {
@@ -478,13 +493,10 @@ func (s *state) walkTemplate(dot reflect.Value, t *parse.TemplateNode) {
 
 	var newState state
 	var found bool
-	for i := len(s.boundBlocks) - 1; i >= 0; i-- {
-		if s.boundBlocks[i].name == name {
-			newState = *s.boundBlocks[i].scope
-			s.boundBlocks = append(s.boundBlocks[:i], s.boundBlocks[i+1:]...)
-			found = true
-			break
-		}
+	if bound != nil {
+		// the block of a mixin call: it runs with the variables of the scope that made the call
+		newState = *bound.scope
+		found = true
 	}
 
 	if !found {
@@ -819,8 +831,7 @@ func (s *state) evalCall(dot, fun reflect.Value, node parse.Node, name string, a
 	}
 
 	if name == "__freeze" {
-		s.boundBlocks = append(s.boundBlocks, &boundBlock{name: argv[0].String(), scope: s})
-		return reflect.ValueOf(Nil{})
+		return reflect.ValueOf(Object(&boundBlock{name: argv[0].String(), scope: s}))
 	}
 
 	result := fun.Call(argv)
